@@ -393,24 +393,29 @@ def _cyclic_env(e0: int, k0: int, e1: int, k1: int, e2: int, k2: int) -> Environ
 
 
 @cond(
-    pre=["0 <= e0 < 3", "0 <= e1 < 3", "0 <= e2 < 3", "0 <= k0 < 3", "0 <= k1 < 3", "0 <= k2 < 3", "1 <= L <= 6"],
+    pre=["0 <= e0 < 3", "0 <= e1 < 3", "0 <= e2 < 3", "0 <= k0 < 3", "0 <= k1 < 3", "0 <= k2 < 3", "1 <= L <= 30"],
     timeout=300,
     shard={"k0": [0, 1, 2]},
     covers="every functional graph over 3 templates whose edges are include / render / extends (all contain a cycle reachable or not from t0): rendering t0 terminates with ContextDepthError, TemplateInheritanceError (or DisabledTagError for include-inside-render) for every context_depth_limit L, never RecursionError or another exception; sync and async",
-    bounds="3 templates, one outgoing edge each: 27 targets x 27 kinds; L in 1..6",
-    grid=lambda: [(e0, k0, e1, k1, 0, k1, L) for e0 in range(3) for k0 in range(3) for e1 in range(3) for k1 in range(3) for L in (1, 3, 6)],
+    bounds="3 templates, one outgoing edge each: 27 targets x 27 kinds; L in 1..30 (the default)",
+    grid=lambda: [(e0, k0, e1, k1, 0, k1, L) for e0 in range(3) for k0 in range(3) for e1 in range(3) for k1 in range(3) for L in (1, 3, 6, 30)],
 )
 def s_cycles(e0: int, k0: int, e1: int, k1: int, e2: int, k2: int, L: int) -> bool:
     args = [concrete_int(v, 0, 2) for v in (e0, k0, e1, k1, e2, k2)]
-    env = untraced(lambda: _cyclic_env(*args))
-    env.context_depth_limit = L
-    for is_async in (False, True):
-        try:
-            t = env.get_template("t0")
-            drive(t.render_async()) if is_async else t.render()
-            return False  # every such graph has a cycle on the path from t0
-        except (ContextDepthError, TemplateInheritanceError, DisabledTagError):
-            pass  # include inside render is refused outright: that terminates too
-        except Exception:  # noqa: BLE001
-            return False
-    return True
+    L = concrete_int(L, 1, 30)
+
+    def run() -> bool:  # the graph and the limit are concrete: the solver enumerates them, the real code runs outside the tracer
+        env = _cyclic_env(*args)
+        env.context_depth_limit = L
+        for is_async in (False, True):
+            try:
+                t = env.get_template("t0")
+                drive(t.render_async()) if is_async else t.render()
+                return False  # every such graph has a cycle on the path from t0
+            except (ContextDepthError, TemplateInheritanceError, DisabledTagError):
+                pass  # include inside render is refused outright: that terminates too
+            except Exception:  # noqa: BLE001
+                return False
+        return True
+
+    return untraced(run)
